@@ -8,6 +8,7 @@ import (
 	"fmt"
 	"go/types"
 	"sort"
+	"strings"
 
 	"zsym/smt"
 )
@@ -52,14 +53,28 @@ type Violation struct {
 	Detail string
 }
 
+// PendingPath is a queued decision prefix with (optionally) a model of its
+// path condition.
+type PendingPath struct {
+	Prefix []int32
+	Model  smt.Model
+}
+
 type Path struct {
 	B *smt.Builder
 	S *smt.Solver
 
-	Prefix  []int32
-	pos     int
-	Trace   []int32
-	Pending [][]int32
+	Prefix    []int32
+	pos       int
+	Trace     []int32
+	Pending   []PendingPath
+	pcTerms   []*smt.Term
+	pcVars    [][]int
+	varMemo   map[*smt.Term][]int
+	varIdx    map[*smt.Term]int
+	ufParent  []int
+	initModel smt.Model
+	NWitness  int
 
 	model   smt.Model
 	memo    map[*smt.Term]uint64
@@ -91,11 +106,11 @@ type Path struct {
 	NSummaryPaths int
 }
 
-func NewPath(s *smt.Solver, prefix []int32, maxSteps int64) *Path {
+func NewPath(s *smt.Solver, prefix []int32, maxSteps int64, init smt.Model) *Path {
 	return &Path{
-		B: smt.NewBuilder(), S: s, Prefix: prefix, MaxSteps: maxSteps,
+		B: smt.NewBuilder(), S: s, Prefix: prefix, MaxSteps: maxSteps, initModel: init,
 		Reached: map[string]bool{}, Notes: map[string]int{}, FuncsSeen: map[string]bool{},
-		memo: map[*smt.Term]uint64{},
+		memo: map[*smt.Term]uint64{}, varMemo: map[*smt.Term][]int{}, varIdx: map[*smt.Term]int{},
 	}
 }
 
@@ -107,7 +122,166 @@ func (p *Path) assertT(t *smt.Term) {
 	if t.IsTrue() {
 		return
 	}
-	p.S.Assert(p.B, t)
+	p.pcTerms = append(p.pcTerms, t)
+	// value propagation: pc fixes a variable
+	switch {
+	case t.Op == smt.OEq && t.Args[0].Op == smt.OVar && t.Args[1].Op == smt.OConst:
+		p.B.Bind(t.Args[0], t.Args[1])
+	case t.Op == smt.OEq && t.Args[1].Op == smt.OVar && t.Args[0].Op == smt.OConst:
+		p.B.Bind(t.Args[1], t.Args[0])
+	case t.Op == smt.OVar && t.Sort.K == smt.KBool:
+		p.B.Bind(t, p.B.BoolC(true))
+	case t.Op == smt.ONot && t.Args[0].Op == smt.OVar:
+		p.B.Bind(t.Args[0], p.B.BoolC(false))
+	}
+	vs := p.varsOf(t)
+	p.pcVars = append(p.pcVars, vs)
+	for k := 1; k < len(vs); k++ {
+		p.union(vs[0], vs[k])
+	}
+}
+
+// varsOf returns the (sorted) indexes of the variables of t.
+func (p *Path) varsOf(t *smt.Term) []int {
+	if vs, ok := p.varMemo[t]; ok {
+		return vs
+	}
+	var vs []int
+	switch t.Op {
+	case smt.OVar:
+		idx, ok := p.varIdx[t]
+		if !ok {
+			idx = len(p.varIdx)
+			p.varIdx[t] = idx
+			p.ufParent = append(p.ufParent, idx)
+		}
+		vs = []int{idx}
+	case smt.OConst:
+	default:
+		for _, a := range t.Args {
+			vs = mergeSorted(vs, p.varsOf(a))
+		}
+	}
+	p.varMemo[t] = vs
+	return vs
+}
+
+func mergeSorted(a, b []int) []int {
+	if len(a) == 0 {
+		return b
+	}
+	if len(b) == 0 {
+		return a
+	}
+	out := make([]int, 0, len(a)+len(b))
+	i, j := 0, 0
+	for i < len(a) && j < len(b) {
+		switch {
+		case a[i] < b[j]:
+			out = append(out, a[i])
+			i++
+		case a[i] > b[j]:
+			out = append(out, b[j])
+			j++
+		default:
+			out = append(out, a[i])
+			i++
+			j++
+		}
+	}
+	out = append(out, a[i:]...)
+	out = append(out, b[j:]...)
+	return out
+}
+
+func (p *Path) find(x int) int {
+	for p.ufParent[x] != x {
+		p.ufParent[x] = p.ufParent[p.ufParent[x]]
+		x = p.ufParent[x]
+	}
+	return x
+}
+
+func (p *Path) union(a, b int) {
+	ra, rb := p.find(a), p.find(b)
+	if ra != rb {
+		p.ufParent[ra] = rb
+	}
+}
+
+// relevant returns the path-condition terms that share variables
+// (transitively) with the query terms, followed by the query terms; and the
+// set of variable-class representatives involved.
+func (p *Path) relevant(query ...*smt.Term) ([]*smt.Term, map[int]bool) {
+	reps := map[int]bool{}
+	for _, q := range query {
+		for _, v := range p.varsOf(q) {
+			reps[p.find(v)] = true
+		}
+	}
+	var out []*smt.Term
+	for k, t := range p.pcTerms {
+		vs := p.pcVars[k]
+		if len(vs) == 0 {
+			out = append(out, t) // variable-free but not constant-folded: keep
+			continue
+		}
+		if reps[p.find(vs[0])] {
+			out = append(out, t)
+		}
+	}
+	return append(out, query...), reps
+}
+
+// checkSliced decides pc ∧ query using only the relevant part of pc.  The
+// returned model (when asked for) is the current model overridden on the
+// variables of the relevant classes.
+func (p *Path) checkSliced(wantModel bool, query ...*smt.Term) (smt.Result, smt.Model) {
+	terms, reps := p.relevant(query...)
+	r, m := p.S.Check(p.B, terms, wantModel, p.B.Vars)
+	if r == smt.Unknown {
+		var sb strings.Builder
+		for _, t := range terms {
+			ts := t.String()
+			if len(ts) > 160 {
+				ts = ts[:160] + "…"
+			}
+			sb.WriteString(ts + " ∧ ")
+			if sb.Len() > 600 {
+				break
+			}
+		}
+		p.Notes["unknown query: "+sb.String()]++
+	}
+	if r != smt.Sat || !wantModel || m == nil {
+		return r, nil
+	}
+	if !p.modelOK || p.model == nil {
+		// no valid base model: only usable when the slice is the whole pc
+		if len(terms)-len(query) == len(p.pcTerms) {
+			return r, m
+		}
+		return r, nil
+	}
+	merged := make(smt.Model, len(p.model)+len(m))
+	for k, v := range p.model {
+		merged[k] = v
+	}
+	for v, idx := range p.varIdx {
+		if reps[p.find(idx)] {
+			merged[v.Name] = m[v.Name]
+		}
+	}
+	return r, merged
+}
+
+// endReplay is called when the last prefix decision has been consumed.
+func (p *Path) endReplay() {
+	if p.initModel != nil {
+		p.setModel(p.initModel)
+	} else {
+		p.modelOK = false
+	}
 }
 
 func (p *Path) ensureModel() {
@@ -115,7 +289,7 @@ func (p *Path) ensureModel() {
 		return
 	}
 	p.NSolver++
-	r, m := p.S.Check(p.B, nil, true, p.B.Vars)
+	r, m := p.S.Check(p.B, p.pcTerms, true, p.B.Vars)
 	switch r {
 	case smt.Sat:
 		if m == nil {
@@ -161,7 +335,7 @@ func (p *Path) Decide(c *smt.Term) bool {
 		}
 		p.Trace = append(p.Trace, d)
 		if !p.replaying() {
-			p.modelOK = false
+			p.endReplay()
 		}
 		return taken
 	}
@@ -174,19 +348,23 @@ func (p *Path) Decide(c *smt.Term) bool {
 		if taken {
 			other = b.Not(c)
 		}
-		p.NSolver++
-		r, _ := p.S.Check(b, []*smt.Term{other}, false, nil)
 		od := int32(1)
 		if taken {
 			od = 0
 		}
-		switch r {
-		case smt.Sat:
-			p.push(od)
-		case smt.Unknown:
-			p.NUnknown++
-			p.Notes["feasibility unknown (branch kept)"]++
-			p.push(od)
+		if wm := p.tryWitness(other); wm != nil {
+			p.push(od, wm)
+		} else {
+			p.NSolver++
+			r, m := p.checkSliced(true, other)
+			switch r {
+			case smt.Sat:
+				p.push(od, m)
+			case smt.Unknown:
+				p.NUnknown++
+				p.Notes["feasibility unknown (branch kept)"]++
+				p.push(od, nil)
+			}
 		}
 		if taken {
 			p.assertT(c)
@@ -199,15 +377,15 @@ func (p *Path) Decide(c *smt.Term) bool {
 	}
 	// model cannot evaluate the condition (uninterpreted parts): ask for both sides
 	p.NSolver += 2
-	r1, m1 := p.S.Check(b, []*smt.Term{c}, true, b.Vars)
-	r2, m2 := p.S.Check(b, []*smt.Term{b.Not(c)}, true, b.Vars)
+	r1, m1 := p.checkSliced(true, c)
+	r2, m2 := p.checkSliced(true, b.Not(c))
 	if r1 == smt.Unknown || r2 == smt.Unknown {
 		p.NUnknown++
 		p.Notes["feasibility unknown (branch kept)"]++
 	}
 	switch {
 	case r1 != smt.Unsat && r2 != smt.Unsat:
-		p.push(0)
+		p.push(0, m2)
 		p.assertT(c)
 		p.Trace = append(p.Trace, 1)
 		if r1 == smt.Sat && m1 != nil {
@@ -238,11 +416,11 @@ func (p *Path) Decide(c *smt.Term) bool {
 	panic(pathAbort{abortInfeasible, "both sides infeasible"})
 }
 
-func (p *Path) push(d int32) {
+func (p *Path) push(d int32, m smt.Model) {
 	np := make([]int32, len(p.Trace)+1)
 	copy(np, p.Trace)
 	np[len(p.Trace)] = d
-	p.Pending = append(p.Pending, np)
+	p.Pending = append(p.Pending, PendingPath{np, m})
 }
 
 // ForkN is a pure n-way decision (no solver involved).
@@ -258,11 +436,15 @@ func (p *Path) ForkN(n int) int {
 		d = p.Prefix[p.pos]
 		p.pos++
 		if !p.replaying() {
-			p.modelOK = false
+			p.endReplay()
 		}
 	} else {
+		var cur smt.Model
+		if p.modelOK {
+			cur = p.model
+		}
 		for k := n - 1; k >= 1; k-- {
-			p.push(int32(k))
+			p.push(int32(k), cur)
 		}
 	}
 	p.Trace = append(p.Trace, d)
@@ -292,7 +474,7 @@ func (p *Path) AssumeT(c *smt.Term) {
 		}
 	}
 	p.NSolver++
-	r, m := p.S.Check(p.B, []*smt.Term{c}, true, append([]*smt.Term(nil), p.B.Vars...))
+	r, m := p.checkSliced(true, c)
 	switch r {
 	case smt.Unsat:
 		panic(pathAbort{abortInfeasible, "assume infeasible"})
@@ -334,7 +516,7 @@ func (p *Path) AssertT(c *smt.Term, label string) {
 	}
 	p.NSolver++
 	p.NAssertQuery++
-	r, m := p.S.Check(p.B, []*smt.Term{p.B.Not(c)}, true, p.B.Vars)
+	r, m := p.checkSliced(true, p.B.Not(c))
 	switch r {
 	case smt.Unsat:
 		return
